@@ -145,15 +145,16 @@ def replay_cfgs(cfgs):
     return out
 
 
-def check(ctx, pid="C10"):
-    q = ctx.tier == "quick"
-    K, D = (3, 4) if q else (5, 5)
+def check(ctx, pid="C10", tier=None):
+    tier = tier or ctx.tier
+    q = tier == "quick"
+    K, D = (3, 4) if q else (4, 5)
     from . import design
     gen = design.gen_basic(ctx) if pid == "C10" else None
-    profs = profiles(ctx.tier)
+    profs = profiles(tier)
     hists = histories(ctx, K, D)
     sim = histories(ctx, K + 2, 8, simulate=40 if q else 500, seed=ctx.seed)
-    probes = replay_cfgs(probe_traces(ctx.tier))
+    probes = replay_cfgs(probe_traces(tier))
     traces = replay_all(profs, hists, 4) + replay_all(profs, sorted(set(sim)), 6) + probes
     verdicts = fw.validate(ctx, traces, module="TraceClient")
     viols = []
@@ -190,7 +191,7 @@ def with_client(base):
     shapes must be right along ANY call sequence, not only the canonical one)."""
     def run(ctx):
         va, cova, asm = base(ctx)
-        vb, covb, _ = check(ctx, pid=ctx.pid)
+        vb, covb, _ = check(ctx, pid=ctx.pid, tier="quick")     # the quick history set in both tiers
         cova["traces_validated_against_impl"] += covb["traces_validated_against_impl"]
         cova["client_histories"] = {k: covb[k] for k in ("histories_exhaustive", "histories_simulated",
                                                          "depth", "profiles", "alphabet")}
